@@ -2,7 +2,8 @@
    [sem e n] (Spec/C10.v) is "the first n items of the iterator analogue of e", written with list
    functions only; [run_ops false] runs the model of the (repaired) adapters. *)
 From Coq Require Import ZArith.
-From Signalo Require Import Model.Sources Spec.C10 Proofs.Sources.
+From Signalo Require Import Model.Sources Spec.C10 Proofs.Sources Proofs.SourcesDenote.
+Local Open Scope Z_scope.
 
 (* any expression, any nesting depth, any number of pulls k (in particular any number of extra
    pulls past the end): the k results are the first k items of the analogue, then `None`s *)
@@ -31,6 +32,28 @@ Theorem C10_cache_spec :
   run_ops false (init (ECache e)) ops = Some (spec_results (ECache e) ops).
 Proof. exact cache_spec. Qed.
 Print Assumptions C10_cache_spec.
+
+(* the fuel that `pull` is given (the height of the run-time state) always suffices: the model's
+   out-of-fuel value never occurs, in any state, initial or not *)
+Theorem C10_fuel_suffices : forall s fuel, (height s <= fuel)%nat -> pull false fuel s <> None.
+Proof. exact pull_total_at_height. Qed.
+Print Assumptions C10_fuel_suffices.
+
+(* the one-step law for EVERY well-formed run-time state (not only initial expressions), in terms of
+   the closed-form denotation of states `denote` (Proofs/SourcesDenote.v): a pull that yields v
+   leaves the rest of the stream; a pull that reports the end leaves an ended state *)
+Theorem C10_pull_denote : forall s fuel o s', WFs s -> (height s <= fuel)%nat ->
+  pull false fuel s = Some (o, s') ->
+  WFs s' /\
+  match o with
+  | Some v => forall n, denote s (S n) = v :: denote s' n
+  | None => forall n, denote s n = [] /\ denote s' n = []
+  end.
+Proof. exact pull_denote. Qed.
+Print Assumptions C10_pull_denote.
+Theorem C10_denote_init : forall e n, WFs (init e) /\ denote (init e) n = sem e n.
+Proof. intros e n. split; [apply WFs_init | apply denote_init]. Qed.
+Print Assumptions C10_denote_init.
 
 (* the spec itself on the corner cases the property names *)
 Theorem C10_spec_examples :
